@@ -17,6 +17,7 @@ import (
 	"os"
 	"os/exec"
 	"path/filepath"
+	"regexp"
 	"strconv"
 	"strings"
 	"testing"
@@ -208,6 +209,33 @@ func classifyDeviation(c diffCase, got, want map[string]interface{}) string {
 	return ""
 }
 
+var driveLetterPrefixRE = regexp.MustCompile(`[A-Za-z][:|][^/\\?#]`)
+
+// nodeParseBug recognises the two parser deviations of node on one parse whose
+// model result is res.
+func nodeParseBug(input string, res map[string]interface{}) string {
+	in := strings.TrimFunc(cleanTabNewline(input), func(r rune) bool { return r <= 0x20 })
+	if i := strings.IndexAny(in, "?#"); i >= 0 {
+		in = in[:i]
+	}
+	proto, _ := res["protocol"].(string)
+	scheme := strings.TrimSuffix(proto, ":")
+	// N1: non-special URL whose path ends in a double-dot segment that is not
+	// followed by "/": the path state shortens the path and appends the empty
+	// string; node does not append it.
+	if proto != "" && !isSpecialScheme(scheme) && endsWithDoubleDotSegment(in) {
+		return "node bug N1: trailing double-dot segment of a non-special URL does not leave an empty segment"
+	}
+	// N8: "shorten a path" spares a single segment only if it IS a normalized
+	// Windows drive letter (two code points); node also spares segments that
+	// merely start with one ("C:0X1f").
+	l := strings.ToLower(in)
+	if scheme == "file" && (strings.Contains(l, "..") || strings.Contains(l, "%2e")) && driveLetterPrefixRE.MatchString(in) {
+		return "node bug N8: shorten-path spares a segment that only starts with a drive letter"
+	}
+	return ""
+}
+
 func cleanTabNewline(s string) string {
 	return strings.NewReplacer("\t", "", "\n", "", "\r", "").Replace(s)
 }
@@ -225,20 +253,12 @@ func endsWithDoubleDotSegment(path string) bool {
 // only consulted when model and node disagree.
 func nodeBugTrigger(c diffCase, got, want map[string]interface{}) string {
 	if c.Kind == "parse" {
-		// N1: non-special URL whose path ends in a double-dot segment that is
-		// not followed by "/": the path state shortens the path and appends
-		// the empty string; node does not append it.
-		gp, _ := got["pathname"].(string)
-		wp, _ := want["pathname"].(string)
-		in := cleanTabNewline(c.Input)
-		if i := strings.IndexAny(in, "?#"); i >= 0 {
-			in = in[:i]
+		return nodeParseBug(c.Input, got)
+	}
+	if first, ok0 := Parse(c.Href, nil); ok0 {
+		if why := nodeParseBug(c.Href, modelSnapshot(first)); why != "" {
+			return why
 		}
-		gproto, _ := got["protocol"].(string)
-		if !isSpecialScheme(strings.TrimSuffix(gproto, ":")) && gp == wp+"/" && endsWithDoubleDotSegment(strings.TrimRight(in, " ")) {
-			return "node bug N1: trailing double-dot segment of a non-special URL does not leave an empty segment"
-		}
-		return ""
 	}
 	u, ok := Parse(c.Href, nil)
 	if !ok {
@@ -295,6 +315,11 @@ func nodeBugTrigger(c diffCase, got, want map[string]interface{}) string {
 				}
 			}
 		case "protocol":
+			if strings.HasPrefix(strings.ToLower(v), "file") && !u.Opaque && len(u.Path) > 0 && len(u.Path[0]) == 2 && u.Path[0][1] == '|' {
+				// N9: setters do not re-parse the URL; node does, which turns a
+				// first segment "C|" into "C:" once the scheme is file.
+				return "node bug N9: re-parse after the protocol setter normalizes a C| segment"
+			}
 			if u.HasPort && u.Port == 0 {
 				// N7: "if url's port is url's scheme's default port" - a
 				// non-special scheme has no (null) default port; node uses 0.
